@@ -53,6 +53,14 @@ prop('C08', 'proof',
      ['patch_chain.rs: rebuild_file_map, read_file, read_patched_file, list, remove_archive, from_archives_parallel (except the sort), add_archives_parallel (except the index)',
       'patch/header.rs: PatchHeader::parse, PatchFile::parse, verify_base, verify_patched (trusted contract)', 'patch/apply.rs: apply_bsd0_patch header parsing through Cursor (only blocks are verified)'])
 
+
+prop('C17', 'proof',
+     'Verus contract on extracted StringBlock::get_string / is_string_start; Kani complete harnesses on DbcHeader; Kani bounded on record size and on the key-map E11 block',
+     'Partial. Proved unbounded (Verus): StringBlock::get_string returns exactly the bytes from the offset to the first NUL (or block end) and Err for offsets outside the block, for blocks of any size; is_string_start law. Kani complete (all u32 field values): DbcHeader::string_block_offset/total_size obey the size law in 64-bit arithmetic without overflow; DbcHeader::parse decodes little-endian fields and rejects inconsistent counts. Kani bounded: Schema::record_size is the packed sum of field widths (<= 4 fields, arrays <= 3); the hashed key map built by create_sorted_key_map maps every key to a record carrying it (3 records, every order; HashMap replaced by an assoc-list contract). Verus on the E11 interning block of DbcWriter::build_string_block: an already interned string changes neither the map nor the block (identical strings stored once), a new string is appended once, NUL-terminated, at the recorded offset (HashMap<String,u32> replaced by a trusted map contract).',
+     'std::str::from_utf8 is an assumed specification. Not under contract: DbcWriter (string interning through HashMap<String,u32>), DbcParser::parse_records field decoding, CachedStringBlock, lazy/mmap/parallel access paths, binary-search lookup. Known discrepancy noticed by a sub-agent and not decided here: the writer sets field_count to schema.fields.len() while validate counts array elements.',
+     ['writer.rs: DbcWriter::write_records, build_string_block, write_record, write_value', 'parser.rs: DbcParser::parse, parse_records, RecordSet::get_record_by_key_binary_search, create_sorted_key_map (except the map-building loop)',
+      'stringblock.rs: CachedStringBlock', 'field_parser.rs, lazy.rs, mmap.rs, parallel.rs, versions.rs, schema.rs: Schema::validate'])
+
 prop('C18', 'proof',
      'Kani complete harness (loop-free, full finite domain, IEEE-754 bit-precise) on the real crate',
      'world_to_tile(tile_to_world(x,y)) == (x,y) proved for all 64x64 tiles symbolically by CBMC on the real functions compiled in place (F4 repaired).',
